@@ -275,7 +275,7 @@ def registered_later(ctx):
     re-registered; every unit has a default category *now*, so every form must build, and build equal objects."""
     from barril.units import Scalar, UnitDatabase
 
-    for order in ("questions before the categories", "categories first", "a category registered again", "the same definitions registered again"):
+    for order in ("questions before the categories", "categories first", "a category registered again", "the same definitions registered again", "a symbol used as a legacy spelling, then registered as a unit"):
         db = UnitDatabase()
         with table.pushed(db):
             db.AddUnitBase("length", "metre", "m")
@@ -284,7 +284,13 @@ def registered_later(ctx):
             db.AddUnit("time", "minute", "min", "%f/60.0", "%f*60.0", default_category="duration")
             # a symbol that reads like a legacy spelling of something else, registered as a unit of its own
             db.AddUnitBase("dynamic viscosity", "pascal second", "Pa.s")
-            db.AddUnit("dynamic viscosity", "newton second per square metre (old symbol)", "Ns/m2", "%f*2.0", "%f/2.0")
+            if order != "a symbol used as a legacy spelling, then registered as a unit":
+                db.AddUnit("dynamic viscosity", "newton second per square metre (old symbol)", "Ns/m2", "%f*2.0", "%f/2.0")
+            else:
+                # the current spellings those two old symbols stand for are units here
+                db.AddUnit("dynamic viscosity", "newton second per square metre", "N.s/m2", "%f", "%f")
+                db.AddUnitBase("volume", "cubic metre", "m3")
+                db.AddUnit("volume", "thousand cubic feet", "Mcf", "%f/28.316846592", "%f*28.316846592")
             if order == "questions before the categories":
                 # (no unit is registered after the questions: a later AddUnit may reset what the questions left behind)
                 for u in ("m", "cm", "s", "min", "Ns/m2"):
@@ -298,8 +304,26 @@ def registered_later(ctx):
             db.AddCategory("time", "time")
             db.AddCategory("duration", "time", valid_units=["min", "s"], default_unit="min")
             db.AddCategory("dynamic viscosity", "dynamic viscosity")
+            if "volume" in db.quantity_types:
+                db.AddCategory("volume", "volume")
             pairs = (("m", "length"), ("cm", "length"), ("s", "time"), ("min", "duration"), ("Ns/m2", "dynamic viscosity"), ("Pa.s", "dynamic viscosity"))
             kept = []
+            if order == "a symbol used as a legacy spelling, then registered as a unit":
+                # while 'Ns/m2' is no unit here it reads as the old spelling of 'N.s/m2'... of nothing registered, or of 'Pa.s'
+                # wherever the library resolves it; every way of asking is tried, then the symbol becomes a unit of its own
+                from barril.units import Array, ObtainQuantity
+
+                for ask in (lambda: Scalar(1.0, "Ns/m2"), lambda: ObtainQuantity("Ns/m2"), lambda: Array([1.0], "Ns/m2"), lambda: Scalar("dynamic viscosity", 1.0, "Ns/m2"),
+                            lambda: db.GetDefaultCategory("Ns/m2"), lambda: ObtainQuantity("Ns/m2", None, "a caption"), lambda: Scalar(1.0, "1000ft3"), lambda: ObtainQuantity("1000ft3")):  # fmt: skip
+                    ctx.ev()
+                    try:
+                        ask()
+                        ctx.count("hand-built: questions about a symbol not registered yet that were answered")
+                    except Exception:
+                        ctx.count("hand-built: questions about a symbol not registered yet that were refused")
+                db.AddUnit("dynamic viscosity", "newton second per square metre (old symbol)", "Ns/m2", "%f*2.0", "%f/2.0")
+                db.AddUnit("volume", "a thousand cubic feet (old symbol)", "1000ft3", "%f/28.0", "%f*28.0")
+                pairs = pairs + (("1000ft3", "volume"), ("Mcf", "volume"), ("N.s/m2", "dynamic viscosity"))
             if order == "the same definitions registered again":
                 # objects built before a registration that changes no definition are equal to the same forms built after it
                 def build_all(u, c):
@@ -342,6 +366,46 @@ def registered_later(ctx):
                     compare_forms(ctx, fraction_forms(u, c, v, True), case, "FractionScalar")
 
 
+def walk_orders(ctx):
+    """The unit-only forms asked *first* for every unit, the table walked in other orders than the one it is written in (from
+    its last row to the first, units with a category of their own before the rest, shuffled) on a database fresh for the
+    walk: what a unit-only form builds is the unit's default category from the table entry whatever was asked before."""
+    from barril.units import Array, FractionScalar, Scalar
+
+    r = ctx.rng("walk")
+    orders = ["last row first", "units with a default category of their own first", "shuffled", "shuffled again"]
+    for oi, order in enumerate(orders):
+        if oi % ctx.nshards != ctx.shard % len(orders) or (ctx.shard >= len(orders)):
+            continue
+        db = table.build("posc")
+        with table.pushed(db):
+            units = [(qt, u) for qt, us in table.units_by_type(db).items() for u in us if qt != "Unknown"]
+            if order == "last row first":
+                units = units[::-1]
+            elif order.startswith("units with"):
+                units = sorted(units, key=lambda t: (db.unit_to_unit_info[t[1]].default_category in (None, t[0]),))
+            else:
+                r.shuffle(units)
+            n = 0
+            for i, (qt, u) in enumerate(units):
+                info_ = db.unit_to_unit_info[u]
+                dc = info_.default_category or (qt if qt in db.categories_to_quantity_types else None)
+                if dc is None:
+                    continue
+                case = {"unit": u, "qt": qt, "walk": order, "category": dc}
+                ctx.ev()
+                n += 1
+                try:
+                    first = [Scalar(2.5, u), Array([2.5, 1.0], u), FractionScalar(2.5, u), Scalar((2.5, u))][: 4 if i % 7 == 0 else 1]
+                    ref = Scalar(dc, 2.5, u)
+                    bad = [type(o).__name__ for o in first if o.GetCategory() != dc or o.GetUnit() != u or o.GetQuantity() != ref.GetQuantity()]
+                    if bad or not (first[0] == ref) or first[0] != ref:
+                        ctx.violation("walk:unit-only-form-differs-from-the-explicit-default-category-form", dict(case, got=[o.GetCategory() for o in first], classes=bad), replay={"unit": u, "qt": qt})
+                except Exception as e:
+                    ctx.violation("walk:form-raised:%s" % type(e).__name__, dict(case, error=str(e)[:160]), replay={"unit": u, "qt": qt})
+            ctx.count("units asked first by a unit-only form in a walk (%s)" % order, n)
+
+
 def run(ctx):
     from barril.units import AbstractValueWithQuantityObject, ObtainQuantity, Scalar
 
@@ -364,6 +428,7 @@ def run(ctx):
             ctx.sample({"unit": "cP", "default category": db.GetDefaultCategory("cP"), "forms": [n for n, _ in scalar_forms("cP", "x", 1.0, True)]})
     if ctx.shard == 0:
         registered_later(ctx)
+    walk_orders(ctx)
     ctx.inconclusive_if(probe.BOUNDARY["Scalar.__init__"] < 1000, "Scalar constructor reached fewer than 1000 times")
 
 
